@@ -197,6 +197,38 @@ client thread: both are sequential and modelled as functions (`none` = blocks fo
 
 Shapes that differ between the current tree and the fixes are `Cfg` flags computed from
 the generated skeletons (`cfgOfGen`).
+
+Behaviours added after the audit (all CLIENT / ENVIRONMENT controlled parts are external
+actions, i.e. outside the fairness assumed of the five threads):
+  * commit DEFERRAL (`process_commits` -> `defer_commit`, returns Ok(true) without logging):
+    action `defer`, enabled while the log worker holds a popped commit and the external flag
+    `treeLocked` is set (a client holds the lock of a tree reader whose tree a queued
+    DereferenceTree refers to); `kill_logs` (`while process_commits()? {}`) blocks for ever in
+    that situation.  The flag is toggled by `lockTree` / `unlockTree` at any time (the tree
+    reader owns an `Arc<DbInner>`, it survives the handle).  The SECOND deferral reason of
+    `process_commits` (a LATER queued commit recorded the tree in `used_trees`) can be cyclic:
+    X = [DereferenceTree T, InsertTree A], Y = [DereferenceTree T, InsertTree B] committed while
+    a reader of T is locked each record `used_trees ∋ T`; X is deferred because of Y, Y because
+    of X', for ever, with NO lock held any more (finding: `makeCycle` sets `deferCycle`, which
+    nothing ever clears; `defer` is then enabled whenever another commit is queued).
+  * `iteration_lock`: held by `enact_logs` from its first line to its return (across the
+    `cleanup_queue_wait` wait) and by a client inside an `iter_column_while` callback:
+    `iterHold` / `iterRelease`; the commit worker cannot enter `enact_logs` meanwhile (`tickCg`).
+  * reindex gating: `next_reindex` / `last_enacted` as record ids (`nextRe`, `nEnacted`,
+    `nLogged`); `process_reindex` does nothing while `next_reindex > last_enacted`;
+    `start_reindex` happens mid-run: `grow k` (the commit just planned overflowed an index table:
+    k more batches, gate = its record id), `dropEnacted k` (the record just enacted dropped an
+    old index table: gate = that record, k batches of the next queued table); the final
+    `next_reindex.store(0)` is a separate step (`reClear`) so that it can overwrite a
+    concurrent `start_reindex` of the commit worker.  Nobody signals the log worker when the
+    gate opens.
+  * worker PANIC: `thread::spawn(move || db.store_err(worker()))` skips `store_err` on unwind:
+    action `panic t` (the thread is gone, no shutdown flag, no notification).  `Reachable`
+    quantifies over schedules WITHOUT panics, `ReachableP` over all schedules.
+  * `fail t` is enabled wherever the worker loops have a `?`: both `process_reindex` calls of
+    the log worker, `process_commits` between the pop and `end_record`, `flush_logs`,
+    `enact_logs`, `clean_logs`.
+Ghost counters: `nLogged` / `nEnacted` / `nBatches` / `lost` / `nDeferred` / `killLost`.
 -/
 
 namespace Pdb.Conc.Pipe
@@ -270,7 +302,7 @@ deriving DecidableEq, Repr
 
 inductive LPc where
   | init | loop | waitL | thr | lqAbout | lqParked | pop | write1 (b : Nat) | write2 (b : Nat) | reindex
-  | err (e : ETail) | done
+  | reClear | err (e : ETail) | done
 deriving DecidableEq, Repr
 
 inductive FPc where
@@ -323,6 +355,19 @@ structure St where
   sdDone : Bool := false            -- ghost: the notifications of shutdown() have been issued
   accepted : Nat := 0
   refused : Nat := 0
+  -- environment (client-controlled locks)
+  iterHeld : Bool := false          -- a client is inside an `iter_column_while` callback (holds `iteration_lock`)
+  treeLocked : Bool := false        -- a client holds the lock of a tree that a queued DereferenceTree refers to
+  deferCycle : Bool := false        -- two queued commits each dereference a tree the other one recorded in `used_trees`
+  -- record ids (`Log::begin_record`, `last_enacted`, `next_reindex`; a fresh database starts at 1 / 1 / 1)
+  nLogged : Nat := 1                -- id of the last record written to the log
+  nEnacted : Nat := 1               -- `last_enacted`
+  nextRe : Nat := 1                 -- `next_reindex` (0 = nothing scheduled)
+  -- ghost counters
+  nBatches : Nat := 0               -- reindex records written
+  lost : Nat := 0                   -- commits popped by a `process_commits` call that failed
+  nDeferred : Nat := 0              -- `defer_commit` calls
+  killLost : Nat := 0               -- unread records of the log file deleted by `Log::kill_logs`
 deriving DecidableEq, Repr
 
 def init (cfg : Cfg) (nCm reidx : Nat) : St :=
@@ -353,11 +398,18 @@ def sdNotify (cfg : Cfg) (s : St) : St :=
   { s with cvF := s.cvF.signal, cvL := s.cvL.signal, cvC := s.cvC.signal, cvK := s.cvK.signal,
            cvQ := if cfg.shutdownSignalsCleanupQ then s.cvQ.signal else s.cvQ, sdDone := true }
 
-/-- `process_reindex`: one batch = one record -/
+/-- the test at the head of `process_reindex`: something is scheduled and its record is enacted -/
+def reGate (s : St) : Bool := s.nextRe != 0 && decide (s.nextRe ≤ s.nEnacted)
+
+/-- `process_reindex`: gated; one batch = one record; with nothing left to do the worker goes on
+    to clear `next_reindex` (`reClear`: a separate step, a `start_reindex` of the commit worker
+    can fall in between) -/
 def reindexStep (s : St) : St :=
-  if s.reidx > 0 then
-    { s with reidx := s.reidx - 1, app := s.app ++ [1], logq := s.logq + 1, cvF := s.cvF.signal,
-             moreReindex := true }
+  if reGate s then
+    if s.reidx > 0 then
+      { s with reidx := s.reidx - 1, app := s.app ++ [1], logq := s.logq + 1, cvF := s.cvF.signal,
+               moreReindex := true, nLogged := s.nLogged + 1, nBatches := s.nBatches + 1 }
+    else { s with pl := .reClear }
   else { s with moreReindex := false }
 
 /-- store_err tail, shared by the four workers: (state, next tail pc or finished) -/
@@ -403,10 +455,11 @@ def tickL (cfg : Cfg) (s : St) : Option St :=
         let s1 := { s with q := q', pl := .write1 b }
         some (if decide (sum q' ≤ MAXQ) && decide (sum q' + b > MAXQ) then notifyAllCm s1 else s1)
     else none
-  | .write1 b => some { s with app := s.app ++ [recSz b], pl := .write2 b }
+  | .write1 b => some { s with app := s.app ++ [recSz b], nLogged := s.nLogged + 1, pl := .write2 b }
   | .write2 b =>
     some { s with logq := s.logq + (recSz b : Int), cvF := s.cvF.signal, moreCommits := true, pl := .reindex }
   | .reindex => some (reindexStep { s with pl := .loop })
+  | .reClear => some { s with nextRe := 0, moreReindex := false, pl := .loop }
   | .err e => (errStep cfg s e).map (fun (s', n) => { s' with pl := match n with | some e' => .err e' | none => .done })
   | .done => none
 
@@ -443,7 +496,8 @@ def tickC (cfg : Cfg) (s : St) : Option St :=
     | (some [], rq) => some { s with readQ := rq, reading := none, dirty := s.dirty + 1, moreC := false, pc := .loop }
     | (some (r :: rs), rq) =>
       if lqFree s then
-        let s1 := { s with readQ := rq, reading := some rs, logq := s.logq - (r : Int), pc := .enDirty }
+        let s1 := { s with readQ := rq, reading := some rs, logq := s.logq - (r : Int), nEnacted := s.nEnacted + 1,
+                           pc := .enDirty }
         some (if decide (s.logq - (r : Int) ≤ (MAXL : Int)) && decide (s.logq > (MAXL : Int)) then lqNotify s1 else s1)
       else none
   | .enDirty => if waitCond cfg s then some { s with pc := .waitQ } else some { s with moreC := true, pc := .loop }
@@ -453,6 +507,14 @@ def tickC (cfg : Cfg) (s : St) : Option St :=
     else none
   | .err e => (errStep cfg s e).map (fun (s', n) => { s' with pc := match n with | some e' => .err e' | none => .done })
   | .done => none
+
+/-- `enact_logs` starts with `iteration_lock.lock()`: the commit worker cannot enter it while a
+    client callback of `iter_column_while` holds that mutex -/
+def tickCg (cfg : Cfg) (s : St) : Option St :=
+  if s.iterHeld && s.pc == .enRead then none else tickC cfg s
+
+/-- the commit worker holds `iteration_lock` (it is inside `enact_logs`, past the read) -/
+def cHoldsIter (s : St) : Bool := s.pc == .enDirty || s.pc == .waitQ
 
 def tickK (cfg : Cfg) (s : St) : Option St :=
   match s.pk with
@@ -478,7 +540,7 @@ def seqEnactOnce (cfg : Cfg) (s : St) : Option (St × Bool) :=
   | (none, _) => some (s, false)
   | (some [], rq) => some ({ s with readQ := rq, reading := none, dirty := s.dirty + 1 }, false)
   | (some (r :: rs), rq) =>
-    let s1 := { s with readQ := rq, reading := some rs, logq := s.logq - (r : Int) }
+    let s1 := { s with readQ := rq, reading := some rs, logq := s.logq - (r : Int), nEnacted := s.nEnacted + 1 }
     if waitCond cfg s1 then none else some (s1, true)
 
 /-- `while enact_logs(false)? {}` -/
@@ -498,7 +560,8 @@ def seqFlush0 (s : St) : St :=
 def seqProcessOnce (s : St) : St × Bool :=
   match s.q with
   | [] => (s, false)
-  | b :: q' => ({ s with q := q', app := s.app ++ [recSz b], logq := s.logq + (recSz b : Int), cvF := s.cvF.signal }, true)
+  | b :: q' => ({ s with q := q', app := s.app ++ [recSz b], logq := s.logq + (recSz b : Int), cvF := s.cvF.signal,
+                         nLogged := s.nLogged + 1 }, true)
 
 def seqProcessLoop : Nat → St → St
   | 0, s => s
@@ -508,16 +571,32 @@ def fuel (s : St) : Nat :=
   s.q.length + s.app.length + s.readQ.length + (s.readQ.map List.length).foldl (· + ·) 0 +
   (match s.reading with | some f => f.length | none => 0) + 3
 
-/-- `kill_logs`, in the order of the generated skeleton (`Ord.killLogs_drains_all`) -/
+/-- `while process_commits()? {}` cannot end: a queued commit is deferred again and again
+    (its tree is locked by a client, or it is part of a deferral cycle of at least two commits) -/
+def deferForEver (s : St) : Bool :=
+  (s.treeLocked && !s.q.isEmpty) || (s.deferCycle && decide (2 ≤ s.q.length))
+
+def optLen : Option (List Nat) → Nat
+  | some f => f.length
+  | none => 0
+
+/-- `kill_logs`, in the order of the generated skeleton (`Ord.killLogs_drains_all`).
+    `while process_commits()? {}` never ends while a queued commit keeps being deferred
+    (`deferForEver`, pessimistic: any queued commit may be the DereferenceTree).  The last line is
+    `Log::kill_logs`: it deletes the pooled files and the file BEING READ (ghost `killLost` = its
+    unread records, which would be lost; `reading` itself is left as it is so that the byte
+    accounting stays an invariant); flushed files still in the read queue stay on disk for the
+    next open. -/
 def killLogsSeq (cfg : Cfg) (s : St) : Option St :=
   if s.bgErr then some { s with dirty := 0 }
   else
     (seqEnactLoop cfg (fuel s) s).bind fun s1 =>
+    if deferForEver s1 then none else
     let s3 := seqProcessLoop (fuel s1) (seqFlush0 s1)
     (seqEnactLoop cfg (fuel s3) s3).bind fun s4 =>
     let s5 := seqFlush0 s4
     (seqEnactLoop cfg (fuel s5) s5).bind fun s6 =>
-    some { s6 with dirty := 0 }
+    some { s6 with dirty := 0, killLost := optLen s6.reading }
 
 def tickD (cfg : Cfg) (s : St) : Option St :=
   match s.pd with
@@ -559,12 +638,23 @@ inductive Act where
   | drop                            -- the owner drops the handle
   | fail (t : Tid)                  -- an I/O error in a worker's current operation
   | apiProcess | apiFlush | apiEnact | apiClean   -- stepping API (no workers)
+  | defer                           -- `process_commits`: the popped commit is re-queued (`defer_commit`), Ok(true)
+  | panic (t : Tid)                 -- a worker thread dies by a panic: `store_err` is skipped
+  | iterHold | iterRelease          -- a client enters / leaves an `iter_column_while` callback
+  | lockTree | unlockTree           -- a client locks / unlocks a tree reader
+  | makeCycle                       -- a client, holding tree locks, has queued commits that defer each other
+  | grow (k : Nat)                  -- `start_reindex` by the log worker: k more reindex batches
+  | dropEnacted (k : Nat)           -- `start_reindex` by the commit worker after an enacted DropTable
 deriving DecidableEq, Repr
+
+def Act.isPanic : Act → Bool
+  | .panic _ => true
+  | _ => false
 
 def step (cfg : Cfg) (s : St) : Act → Option St
   | .tick .L => tickL cfg s
   | .tick .F => tickF cfg s
-  | .tick .C => tickC cfg s
+  | .tick .C => tickCg cfg s
   | .tick .K => tickK cfg s
   | .tick .D => tickD cfg s
   | .cmTick i => tickCm s i
@@ -574,10 +664,12 @@ def step (cfg : Cfg) (s : St) : Act → Option St
         some (setCm s i (.about b))
       else some (commitFinish s i b)
     else none
-  | .drop => if s.pd = .idle && s.cms.all (· == .idle) then some { s with pd := .sd1 } else none
+  | .drop => if s.pd = .idle && s.cms.all (· == .idle) && !s.iterHeld then some { s with pd := .sd1 } else none
   | .fail .L =>
     if cfg.workers then match s.pl with
-      | .write1 _ => some { s with pl := .err .e1 }
+      | .write1 _ => some { s with pl := .err .e1, lost := s.lost + 1 }
+      | .init => some { s with pl := .err .e1 }
+      | .reindex => some { s with pl := .err .e1 }
       | _ => none
     else none
   | .fail .F => if cfg.workers && s.pf = .flOne then some { s with pf := .err .e1 } else none
@@ -596,6 +688,27 @@ def step (cfg : Cfg) (s : St) : Act → Option St
     if !cfg.workers && s.pd = .idle then
       some { s with dirty := if s.dirty > cfg.keepLogs then cfg.keepLogs else s.dirty, cvQ := s.cvQ.signal }
     else none
+  | .defer =>
+    if (s.treeLocked || (s.deferCycle && !s.q.isEmpty)) && qFree s then match s.pl with
+      | .write1 b => some { s with q := s.q ++ [b], moreCommits := true, nDeferred := s.nDeferred + 1, pl := .reindex }
+      | _ => none
+    else none
+  | .panic .L => if cfg.workers && s.pl != .done then some { s with pl := .done } else none
+  | .panic .F => if cfg.workers && s.pf != .done then some { s with pf := .done } else none
+  | .panic .C => if cfg.workers && s.pc != .done then some { s with pc := .done } else none
+  | .panic .K => if cfg.workers && s.pk != .done then some { s with pk := .done } else none
+  | .panic .D => none
+  | .iterHold => if s.pd = .idle && !s.iterHeld && !cHoldsIter s then some { s with iterHeld := true } else none
+  | .iterRelease => if s.iterHeld then some { s with iterHeld := false } else none
+  | .lockTree => some { s with treeLocked := true }
+  | .unlockTree => some { s with treeLocked := false }
+  | .makeCycle => if s.treeLocked then some { s with deferCycle := true } else none
+  | .grow k =>
+    match s.pl with
+    | .write2 _ => some { s with nextRe := s.nLogged, reidx := s.reidx + k }
+    | .loop => if s.moreReindex then some { s with nextRe := s.nLogged, reidx := s.reidx + k } else none
+    | _ => none
+  | .dropEnacted k => if s.pc = .enDirty then some { s with nextRe := s.nEnacted, reidx := s.reidx + k } else none
 
 def run (cfg : Cfg) (s : St) : List Act → Option St
   | [] => some s
@@ -603,12 +716,17 @@ def run (cfg : Cfg) (s : St) : List Act → Option St
     | some s' => run cfg s' as
     | none => none
 
-def Reachable (cfg : Cfg) (nCm reidx : Nat) (s : St) : Prop := ∃ as, run cfg (init cfg nCm reidx) as = some s
+/-- reachable by a schedule in which no worker panics (C15's quantifier) -/
+def Reachable (cfg : Cfg) (nCm reidx : Nat) (s : St) : Prop :=
+  ∃ as, (∀ a ∈ as, a.isPanic = false) ∧ run cfg (init cfg nCm reidx) as = some s
+
+/-- reachable by any schedule, worker panics included -/
+def ReachableP (cfg : Cfg) (nCm reidx : Nat) (s : St) : Prop := ∃ as, run cfg (init cfg nCm reidx) as = some s
 
 /-- no thread can take a step on its own (external actions - new commits, drop, injected
     failures, API calls - are not threads) -/
 def allBlocked (cfg : Cfg) (s : St) : Bool :=
-  (tickL cfg s).isNone && (tickF cfg s).isNone && (tickC cfg s).isNone && (tickK cfg s).isNone &&
+  (tickL cfg s).isNone && (tickF cfg s).isNone && (tickCg cfg s).isNone && (tickK cfg s).isNone &&
   (tickD cfg s).isNone && (List.range s.cms.length).all (fun i => (tickCm s i).isNone)
 
 end Pdb.Conc.Pipe
